@@ -216,13 +216,16 @@ def run_fs(desc):
 
         @seed(desc['seed'])
         @util.hyp_settings(max(10, desc['n']), shrink=False)
-        @given(pat, st.sampled_from(cfgs), st.integers(0, 4))
-        def test(segs, cfg, api):
+        @given(pat, st.sampled_from(cfgs), st.integers(0, 4), st.sampled_from([0, 0, 8, 9, 10, 12]))
+        def test(segs, cfg, api, variant):
             segs = tuple(s for s in segs if s)
             if not segs:
                 return
             pp = A.PathPat(False, segs, False, 1)
-            text = A.render_path(pp)
+            # variant: equivalent spellings (bit 8: literal dots written `\\.` - what a dot at the start of a segment means does not
+            # depend on how it is written)
+            text = A.render_path(pp, variant=variant)
+            out.stats['fs_alternative_spellings'] += bool(variant)
             fl = lang.gl_flags(cfg) | (G.SCANDOTDIR if cfg.get('scandotdir') else 0) | (G.FOLLOW if cfg.get('follow') else 0)
             try:
                 with util.watchdog(5), util.ScandirCounter(4000):
@@ -274,7 +277,7 @@ def run_fs(desc):
                     from .. import findings as K
                     ids = K.path_classes(pp, r, kw, True, v, text)
                     hit = sorted(ids & set(armed))
-                    case = {'mode': 'fs', 'ast': A.to_json(pp), 'pattern': text, 'cfg': cfg, 'api': api, 'name': r, 'verdict': v}
+                    case = {'mode': 'fs', 'ast': A.to_json(pp), 'pattern': text, 'cfg': cfg, 'api': api, 'name': r, 'verdict': v, 'variant': variant}
                     if hit:
                         out.known_hit(hit[0], case)
                     else:
@@ -295,6 +298,58 @@ def run_fs(desc):
                     if any(s.startswith('.') for s in rel.split('/')):
                         out.violation({'mode': 'wcmatch', 'file_pattern': fpat, 'flags': flags, 'name': rel}, bucket=('wcmatch',))
                 out.nontrivial(('wcmatch', fpat, flags))
+        # the guard against the special directories does not depend on how the dots of the pattern are written: `..*` with none, both,
+        # the first or the second dot escaped accepts the same names, never `.` or `..` under NODOTDIR, and glob() never returns them
+        # without SCANDOTDIR
+        def spellings(t):
+            idx = [i for i, ch in enumerate(t) if ch == '.']
+            outs = {t}
+            for mask in range(1, 1 << len(idx)):
+                u = list(t)
+                for j, i in enumerate(idx):
+                    if mask >> j & 1:
+                        u[i] = '\\.'
+                outs.add(''.join(u))
+            return sorted(outs)
+        dot_names = ['.', '..', '...', '..a', '.a', 'a', 'a.', '.a.', 'a/..', 'a/.', 'a/..a', './..', '../.', 'a/...', '.d', 'd/.e', '....', 'a..']
+        for base_t in ('..*', '.*', '..?', '.?', '.*.', '*..', '..[!a]', 'a/..*', 'a/.*', '*/..*', '..*/.', '.*/..*', '.[.]*', '..*a', '*.', '.**'):
+            sp = spellings(base_t)
+            for fl in (G.NODOTDIR, G.NODOTDIR | G.DOTGLOB, G.DOTGLOB, 0, G.NODOTDIR | G.GLOBSTAR, G.NODOTDIR | G.EXTGLOB):
+                answers = {}
+                for t in sp:
+                    try:
+                        answers[t] = tuple(bool(G.globmatch(n, t, flags=fl)) for n in dot_names)
+                    except Exception as e:
+                        answers[t] = ('EXC', type(e).__name__)
+                    out.evaluations += len(dot_names)
+                ref_ans = answers[base_t]
+                for t in sp:
+                    bad = None
+                    if answers[t] != ref_ans:
+                        bad = 'a spelling with escaped dots is answered differently from the plain spelling'
+                        k = next((i for i, (x, y) in enumerate(zip(answers[t], ref_ans)) if x != y), 0)
+                    elif fl & G.NODOTDIR and answers[t][0] != 'EXC':
+                        k = next((i for i, n in enumerate(dot_names) if answers[t][i] and n.split('/')[-1] in ('.', '..') and
+                                  not base_t.split('/')[-1] in ('.', '..')), None)
+                        if k is not None and not base_t.endswith('/.'):
+                            bad = 'NODOTDIR: a pattern with a wildcard accepts the special directory'
+                    if bad:
+                        out.violation({'mode': 'dotspell', 'pattern': t, 'plain': base_t, 'flags': fl, 'name': dot_names[k] if isinstance(k, int) else None,
+                                       'problem': bad}, bucket=('dotspell', base_t))
+                        break
+            for t in sp:
+                try:
+                    with util.ScandirCounter(4000):
+                        res = G.glob(t, flags=G.DOTGLOB, root_dir=root)
+                except Exception as e:
+                    res = ['<%s>' % type(e).__name__]
+                out.evaluations += 1
+                special = [r_ for r_ in res if r_.rstrip('/').split('/')[-1] in ('.', '..') and not base_t.endswith('/.')]
+                if special:
+                    out.violation({'mode': 'dotspell', 'pattern': t, 'plain': base_t, 'flags': G.DOTGLOB, 'name': special[0], 'glob': True,
+                                   'problem': 'glob() returns a special directory for a wildcard pattern although SCANDOTDIR is not set'},
+                                  bucket=('dotspell-glob', base_t))
+            out.nontrivial(('dotspell', base_t))
     out.sample({'stream': 'fs', 'tree': [e[1] for e in HIDDEN_TREE]})
     return out
 
@@ -317,13 +372,23 @@ def replay(case):
                lambda: match(n, ['!' + pe, pi], base | mod.NEGATE), lambda: match(n, '!' + pe + '|' + pi, base | mod.NEGATE | mod.SPLIT),
                lambda: match(n, ['!' + pe], base | mod.NEGATE | mod.NEGATEALL)][how]()
         return bool(got) == bool(want), {'want': bool(want), 'impl': bool(got)}
+    if m == 'dotspell':
+        if case.get('glob'):
+            from .. import fscommon as FC
+            with FC.built_tree(HIDDEN_TREE) as (root, _removed):
+                res = G.glob(case['pattern'], flags=case['flags'], root_dir=root)
+            return case['name'] not in res, {'result': res[:20]}
+        a = bool(G.globmatch(case['name'], case['pattern'], flags=case['flags']))
+        b = bool(G.globmatch(case['name'], case['plain'], flags=case['flags']))
+        special = case['name'].split('/')[-1] in ('.', '..') and case['flags'] & G.NODOTDIR
+        return a == b and not (a and special), {'escaped_spelling': a, 'plain_spelling': b}
     if m == 'fs':
         from .. import fscommon as FC
         with FC.built_tree(HIDDEN_TREE) as (root, _removed):
             cfg = case['cfg']
             pp = A.from_json(case['ast'])
-            text = A.render_path(pp)
-            fl = lang.gl_flags(cfg) | (G.SCANDOTDIR if cfg.get('scandotdir') else 0)
+            text = A.render_path(pp, variant=case.get('variant', 0))
+            fl = lang.gl_flags(cfg) | (G.SCANDOTDIR if cfg.get('scandotdir') else 0) | (G.FOLLOW if cfg.get('follow') else 0)
             with util.ScandirCounter(4000):
                 res = G.glob(text, flags=fl, root_dir=root)
             return case['name'] not in res, {'pattern': text, 'result': res[:20]}
@@ -336,6 +401,6 @@ def replay(case):
 
 
 def shrink(case):
-    if case.get('mode') in ('exclude', 'fs', 'wcmatch'):
+    if case.get('mode') in ('exclude', 'fs', 'wcmatch', 'dotspell'):
         return case
     return lang.shrink_case(case)
